@@ -1,4 +1,5 @@
 """Shared recognisers for the rule tables."""
+import re
 from ..interp import interp, cinfo, fmt_term
 from ..terms import (versionless, is_call, call_name, param_path, rooted_at_param, elem_of, elem_value_of,
                      as_item, iter_source, iter_adaptors, LOSSY_ADAPTORS, subterms, closure_bindings, subst, phi_alts, drop_lv, value_path)
@@ -553,3 +554,43 @@ TYPE_PROP_WHY = 'every replica of the type, also one that was cloned, defaulted 
 def type_props(instance):
     """instance name starts with `<module>::` -> the properties about that module's type."""
     return TYPE_PROPS.get(str(instance).split('::')[0], [])
+
+
+# ---- which properties are *observed* through the reads of a module's type: every behavioural property is stated over what
+# replicas read, so a read that hides, adds or reorders stored data breaks each of them on the histories that reach such a state
+READ_OBSERVES = {
+    'mvreg': ['C02', 'C03', 'C06', 'C07', 'C08', 'C09', 'C18', 'C20'],
+    'orswot': ['C02', 'C03', 'C04', 'C07', 'C08', 'C09', 'C18', 'C20'],
+    'map': ['C02', 'C03', 'C05', 'C07', 'C08', 'C09', 'C18', 'C20'],
+    'vclock': ['C02', 'C03', 'C04', 'C05', 'C06', 'C07', 'C08', 'C09', 'C10', 'C11', 'C18', 'C20'],
+    'gcounter': ['C02', 'C03', 'C11', 'C18'], 'pncounter': ['C02', 'C03', 'C11', 'C18'],
+    'maxreg': ['C02', 'C03', 'C11'], 'minreg': ['C02', 'C03', 'C11'], 'gset': ['C02', 'C03', 'C11'], 'lwwreg': ['C02', 'C03', 'C11'],
+    'list': ['C12', 'C09'], 'glist': ['C02', 'C12', 'C14'], 'merkle_reg': ['C02', 'C03', 'C15'],
+}
+READ_WHY = 'the property is stated over what replicas read: a read that hides, adds or reorders stored data changes the observation ' \
+           'on every history that reaches such a state'
+_TYPE_MODULE = {'Orswot': 'orswot', 'Map': 'map', 'MVReg': 'mvreg', 'VClock': 'vclock', 'GCounter': 'gcounter', 'PNCounter': 'pncounter',
+                'MaxReg': 'maxreg', 'MinReg': 'minreg', 'GSet': 'gset', 'LWWReg': 'lwwreg', 'List': 'list', 'GList': 'glist',
+                'MerkleReg': 'merkle_reg'}
+
+
+def read_attribution(own, module=None, default=None, own_filter=None):
+    """(props, inst_filter) for a read rule: `own` = the rule's own necessity arguments; every other property observed
+    through the module's reads is added with READ_WHY.  `module` fixes the module for all instances; otherwise the
+    instance name starts with the type (`Orswot::read`, `GList.list`)."""
+    def mod_of(inst):
+        if module is not None:
+            return module
+        head = re.split(r'::|\.|/', str(inst))[0]
+        return _TYPE_MODULE.get(head, default)
+    mods = [module] if module else sorted(set(_TYPE_MODULE.values()))
+    props = dict(own)
+    filt = dict(own_filter or {})
+    for m in mods:
+        for p_ in READ_OBSERVES.get(m, []):
+            props.setdefault(p_, READ_WHY)
+    for p_ in props:
+        if p_ in own:
+            continue
+        filt[p_] = (lambda i, p_=p_: i in ('floor', 'anchor', 'internal') or p_ in READ_OBSERVES.get(mod_of(i), []))
+    return {'props': props, 'inst_filter': filt}
